@@ -292,8 +292,10 @@ fn main() {
             // a tag with the branch's own short name, lightweight and annotated, on the middle commit and on the tip
             for (target, annotated) in [(1, false), (2, false), (1, true)] { tagsets.push(vec![base.clone(), Tag { name: name.to_string(), target, annotated }]); }
         }
-        for tags in &tagsets {
+        for (ti, tags) in tagsets.iter().enumerate() {
             repo.set_tags(tags);
+            // every other tag set is stored as packed refs (what `git gc` / a fresh clone leaves behind)
+            if ti % 2 == 1 { gitx::git(&repo.dir, &["pack-refs", "--all"], None); st.inc("packed_ref_states"); }
             for head in [Head::Branch(name.to_string()), Head::Branch(other.to_string()), Head::Detached(2)] {
                 repo.set_head(&head);
                 st.inc("states"); st.inc("refname_states");
@@ -388,6 +390,6 @@ fn main() {
     cov.set("wall_cap_hit", was_capped);
     cov.set("explorer_cross_check", json!({"engine":"stateright 0.31 spawn_bfs","unique_states":sr_states,"own_bfs_states":all_shapes.len()}));
     cov.set("process_conformance_cases", s_p.get("process_conformance_cases"));
-    cov.assumptions = vec!["R-GIT (harness/src/gitx.rs + the oracle in c02.rs); which of several equal-precedence tags / which member of the nearest-tag antichain is reported is left open".into(), "octopus merges, shallow clones, submodules and packed refs are out of scope".into(), "tag validity judged by the reference recognisers R-SV / R-PEP".into()];
+    cov.assumptions = vec!["R-GIT (harness/src/gitx.rs + the oracle in c02.rs); which of several equal-precedence tags / which member of the nearest-tag antichain is reported is left open".into(), "octopus merges, shallow clones, submodules and nested (tag-of-tag) annotated tags are out of scope".into(), "tag validity judged by the reference recognisers R-SV / R-PEP".into()];
     finish(&ctx, cov);
 }
